@@ -2,5 +2,5 @@
 set -eu
 cd "$(dirname "$0")"
 mkdir -p bin evidence replay
-./build.sh
+./build.sh race
 echo setup ok
